@@ -156,3 +156,18 @@ package options
 //@ scan[stable:cookie-options-shared-by-the-constructor-only] field-writers Options.Cookie main.NewOAuthProxy main.buildSessionChain pkg/apis/options.NewOptions pkg/apis/options.(*LegacyOptions).ToOptions pkg/sessions/tests.* pkg/validation.*
 //@ scan[stable:legacy-prefer-email-set-by-the-legacy-conversion] field-writers Options.LegacyPreferEmailToUser pkg/apis/options.(*LegacyOptions).ToOptions pkg/apis/options.NewOptions
 
+
+// ------------------------------------------------------------------ C07 / C05 / C04: the structured configuration is decoded strictly: a key that
+// is unknown or given twice is an error (a second "name:" under one list item would silently replace the first header), and a
+// file that cannot be read or substituted is an error
+//@ func LoadYAML
+//@ prop C07 C05 C04 C01
+//@ ensures[decoded-strictly-or-an-error] ret0 == nil ==> called(UnmarshalStrict) && ret(UnmarshalStrict) == nil && arg(UnmarshalStrict, 1) == into
+//@     && arg(UnmarshalStrict, 0) == ret0(loadAndParseYaml) && ret1(loadAndParseYaml) == nil && arg(loadAndParseYaml, 0) == configFileName
+//@ ensures[unreadable-configuration-is-an-error] called(loadAndParseYaml) && ret1(loadAndParseYaml) != nil ==> ret0 != nil && !called(UnmarshalStrict)
+
+// the structured sections replace the corresponding core sections wholesale
+//@ func (*AlphaOptions).MergeInto
+//@ prop C07 C05 C04 C01 C17
+//@ ensures[sections-copied-as-decoded] opts.Providers == old(a.Providers) && opts.InjectRequestHeaders == old(a.InjectRequestHeaders)
+//@     && opts.InjectResponseHeaders == old(a.InjectResponseHeaders)
